@@ -11,7 +11,10 @@ require (
 	github.com/libp2p/go-libp2p-core v0.8.5
 	github.com/libp2p/go-libp2p-gorpc v0.1.3
 	github.com/libp2p/go-libp2p-pubsub v0.4.1
+	github.com/multiformats/go-multiaddr v0.3.3
 	github.com/multiformats/go-multihash v0.0.15
+	github.com/ugorji/go/codec v1.2.6
+	google.golang.org/protobuf v1.27.1
 )
 
 replace github.com/ipfs/ipfs-cluster => /repo
